@@ -576,6 +576,8 @@ type runner struct {
 	knownSeen   bool
 	knownCount  int
 	sensCount   int
+
+	seriesNontrivial int
 }
 
 func (rn *runner) fail(key, what string, c caseJSON) {
@@ -747,6 +749,17 @@ func bucket(n int) string {
 }
 
 func (rn *runner) runDoc(doc json.RawMessage) {
+	var kind struct {
+		Kind string `json:"kind"`
+	}
+	if json.Unmarshal(doc, &kind) == nil && kind.Kind == "series" {
+		var sj seriesJSON
+		if json.Unmarshal(doc, &sj) == nil {
+			sj.Observed = nil
+			rn.runSeries(sj)
+		}
+		return
+	}
 	var c caseJSON
 	if json.Unmarshal(doc, &c) != nil {
 		return
@@ -761,8 +774,8 @@ func (rn *runner) runDoc(doc json.RawMessage) {
 // ---------------------------------------------------------------------------------------
 
 func Run(cfg vh.Config) (*vh.Result, error) {
-	res := &vh.Result{InputDistribution: map[string]int{}}
-	res.Rule = "a case = configuration (2-7 rules: 13 target variables incl. exclusions/counts/by-key, 8 operators, shared transformation prefixes, per-match setvar counters, deny thresholds, severities, captures, chains) x request (2-8 distinct names, names repeated 2-4 times within and across GET/POST incl. case variants, headers); each run N times on fresh WAFs and N times on one long-lived WAF. non-trivial = some fired rule matched at least two entries (its matched multiset and counters depend on a map iteration). distinct = distinct case descriptions"
+	res := &vh.Result{InputDistribution: map[string]int{}, Shards: []vh.ShardInfo{}}
+	res.Rule = "a case = configuration (2-7 rules: 13 target variables incl. exclusions/counts/by-key, 8 operators, shared transformation prefixes, per-match setvar counters, deny thresholds, severities, captures, chains) x request (2-8 distinct names, names repeated 2-4 times within and across GET/POST incl. case variants, headers); each run N times on fresh WAFs and N times on one long-lived WAF. non-trivial = some fired rule matched at least two entries (its matched multiset and counters depend on a map iteration). distinct = distinct case descriptions. series = configuration with 2-6 state-carrying actions (allow / allow:request / allow:phase, skip, skipAfter present/absent, ctl:ruleEngine / ruleRemoveById / ByTag / TargetById / requestBodyAccess / forceRequestBodyVariable, setvar, capture, deny, severity) each triggered by the value of X-Trigger + observation rules in phases 1-5; one long-lived WAF serves a sequence alternating triggering and non-triggering requests, every run compared with the same request on a fresh WAF (implementation-side only, not modelled); non-trivial = rules fired during the series"
 	rn := &runner{cfg: cfg, res: res, seen: map[string]bool{}}
 	rng := vh.Rng(cfg.Seed, "c04")
 
@@ -793,10 +806,17 @@ func Run(cfg vh.Config) (*vh.Result, error) {
 		for i := 0; i < ns; i++ {
 			rn.runCase(genCase(rng, true))
 		}
+		// fresh versus long-lived WAF with state-carrying actions (implementation-side oracle only)
+		srng := vh.Rng(cfg.Seed, "c04-series")
+		nser := cfg.Pick(150, 800)
+		for i := 0; i < nser; i++ {
+			rn.runSeries(genSeries(srng))
+		}
+		res.InputDistribution["series_with_fired_rules_on_long_lived_waf"] = rn.seriesNontrivial
 	}
 	res.OracleEvaluations = rn.oracleEvals
 	res.Evaluations = rn.oracleEvals
-	res.DistinctNontrivial = rn.nontrivial
+	res.DistinctNontrivial = rn.nontrivial + rn.seriesNontrivial
 	if rn.sensCount > 0 {
 		res.Notes = append(res.Notes, fmt.Sprintf("%d order-sensitive configurations generated on purpose, %d of them showed run-to-run differences (known finding %s)", rn.sensCount, rn.knownCount, knownKey))
 	}
